@@ -13,7 +13,7 @@ from ..front import AnalysisError, norm, walk_no_nested
 from ..report import Ctx
 from ..symeval import SymEval, is_const, show
 from ..tables import Poly
-from .util import bv_equal, drop_exit_facts, guard_text, is_func_call, is_self_call, leaves, mentions, msb_first_bits, strip_str, subterms
+from .util import bv_equal, drop_exit_facts, guard_text, iteration_ends, is_func_call, is_self_call, leaves, mentions, msb_first_bits, strip_str, subterms
 
 
 # ============================================================================ C15-D1 identity bits
@@ -983,7 +983,7 @@ def read_returns(eng: Engine, ctx: Ctx, rid: str, model: ReaderModel | None = No
     flag = cond_vars[0]
     init = info["pre"].get(flag)
     ctx.check(is_const(init) and bool(init[1]), rid, f.qualname, f"initial {flag}", expected="truthy constant (the loop body runs before anything is returned)", found=show(init) if init else "unbound", **loc)
-    ends = [("fall-through", info.get("body_end"), info.get("body_dead"))] + [(k, st.env, None) for k, st in info.get("ends", [])]
+    ends = [(k, st.env, None) for k, st in iteration_ends(info)]  # fall-through ends are examined path by path
     for kind, env, dead in ends:
         if env is None or (kind == "fall-through" and dead):
             continue
@@ -1194,7 +1194,7 @@ def sync_set(eng: Engine, ctx: Ctx, rid: str, model: ReaderModel):
     ctx.check(r1.term[3][0] == ("const", 1) and r1.loops == (model.lid,) and not [c for c in r1.guards if c[0] != ("loop", model.lid, "parsing")], rid, f.qualname, "first read of every iteration",
               expected="unconditional 1-byte read", found=show(r1.term)[:40] + " under " + guard_text(r1.guards)[:60], **eng.loc(f, r1.node))
     found_sets = []
-    for kind, st in model.loop.get("ends", []):
+    for kind, st in iteration_ends(model.loop):
         for c, pol in st.guards:
             if c[0] == "cmp" and c[1] in ("in", "not in") and c[2] == r1.term and is_const(c[3]) and isinstance(c[3][1], (tuple, list, set, frozenset)):
                 outside = (c[1] == "not in") == pol
@@ -1205,7 +1205,7 @@ def sync_set(eng: Engine, ctx: Ctx, rid: str, model: ReaderModel):
         return
     for sset, kind, st in found_sets:
         ctx.check(sset == want, rid, f.qualname, "sync set", expected=str(sorted(want)), found=str(sorted(sset)), **eng.loc(f, r1.node))
-        ctx.check(kind == "continue", rid, f.qualname, "non-sync byte ends the iteration", expected="continue", found=kind, **eng.loc(f, r1.node))
+        ctx.check(kind in ("continue", "fall-through"), rid, f.qualname, "non-sync byte ends the iteration", expected="continue (or the end of the loop body)", found=kind, **eng.loc(f, r1.node))
     # no second read on the non-sync path
     for e in model.reads[1:]:
         for conj in e.dnf:
@@ -1292,7 +1292,7 @@ def _ends_in_continue(eng, ctx, rid, model, call_effect, label):
     test = model.loop.get("test")
     if test is not None and test[0] == "loop":
         flag = test[2]
-        ends = [(k, st) for k, st in model.loop.get("ends", []) if need <= set(st.guards)]
+        ends = [(k, st) for k, st in iteration_ends(model.loop) if need <= set(st.guards)]
         changed = [k for k, st in ends if st.env.get(flag) != test or k == "break"]
         ctx.check(not changed, rid, rd.qualname, f"{label} branch keeps the loop running", expected="loop condition unchanged, no break", found=", ".join(changed) or "-", **eng.loc(rd, call_effect.node))
 
